@@ -209,16 +209,18 @@ def restore(imp, gid, saved):
 
 def handle_ids(h):
     """What a handle reports about its interfaces: the list, the name-keyed view, and - for services - the printed form."""
-    out = {'interface_list': sorted(i.node_id for i in h.interface_list)}
-    try:
-        out['interfaces'] = sorted(i.node_id for i in h.interfaces.values())
-    except Exception as e:
-        out['interfaces'] = f'raises {type(e).__name__}'
+    out = {}
+    # (the printed form first: reading one of the lists may bring the handle up to date)
     if type(h).__name__ in ('NetworkService', 'PortMirrorService'):
         try:
             out['printed'] = repr(h)
         except Exception as e:
             out['printed'] = f'raises {type(e).__name__}'
+    try:
+        out['interfaces'] = sorted(i.node_id for i in h.interfaces.values())
+    except Exception as e:
+        out['interfaces'] = f'raises {type(e).__name__}'
+    out['interface_list'] = sorted(i.node_id for i in h.interface_list)
     return out
 
 
